@@ -60,11 +60,11 @@ def main():
         res["checks"] = {}
         if checks == ["all"]:
             checks = [c["property_id"] for c in json.load(open(os.path.join(VERIF, "MANIFEST.json")))["checks"]]
-            sh("cd %s && harness/check.py C15 --tier quick" % VERIF, timeout=7200)       # build once (generated facts may have changed)
+            # every check builds what it needs itself (model part once, then its own proof files; the build lock serialises it)
             from concurrent.futures import ThreadPoolExecutor
             def one(c):
                 t0 = time.time()
-                rc, out = sh("cd %s && VERIF_SEED=%s harness/check.py %s --tier %s --no-build" % (VERIF, a.seed, c, a.tier), timeout=7200)
+                rc, out = sh("cd %s && VERIF_SEED=%s harness/check.py %s --tier %s" % (VERIF, a.seed, c, a.tier), timeout=7200)
                 return c, rc, out, time.time() - t0
             with ThreadPoolExecutor(12) as ex:
                 results = list(ex.map(one, checks))
